@@ -26,6 +26,9 @@ simfile = X.simfile
 SMSimfile, SSCSimfile, SMChart, SSCChart = X.SMSimfile, X.SSCSimfile, X.SMChart, X.SSCChart
 
 LEVEL = "model_checking"
+# no reduced pass under `python -O`: the texts here include malformed ones, which the trusted tokenizer (msdparser)
+# recognises by assert statements - without them it loops; that is the dependency's business
+REDUCED_PASS = False
 NAMES = ["x.sm", "x.ssc", ".SM", ".SSC", "x.txt", "x.sm.bak", "ssc", "sm"]  # ".SM" / ".SSC": upper case and nothing before the dot
 
 
@@ -476,10 +479,10 @@ def explore(run):
     for n in range(0, 9):
         shards.append(("M", n))
     sizes = [63, 64, 255, 256, 511, 512, 1000, 1016, 1023, 1024, 1025, 2047, 2048, 4095, 4096, 4097, 8191, 8192, 8193, 16384, 65536, 70000]
-    for i in range(0, len(sizes), 2):
-        shards.append(("Z", tuple(sizes[i:i + 2])))
-    for part in range(8):
-        shards.append(("ZS", part, 8))
+    for n in sizes:
+        shards.append(("Z", (n,)))
+    for part in range(32):
+        shards.append(("ZS", part, 32))
     shards += [("corpus", i) for i in range(len(X.corpus_files()))]
     k = run.seed % len(shards)
     shards = shards[k:] + shards[:k]
